@@ -1664,6 +1664,24 @@ _sftp_error_map: Dict[int, Callable[[str, str], SFTPError]] = {
 }
 
 
+def _encode_time32(value: float) -> bytes:
+    """Encode a time in SFTPv3, which can't carry times before 1970"""
+
+    return UInt32(min(max(int(value), 0), 0xffffffff))
+
+
+def _encode_time64(value: float) -> bytes:
+    """Encode a time in SFTPv4 and later, where it is a signed value"""
+
+    return int(value).to_bytes(8, 'big', signed=True)
+
+
+def _decode_time64(packet: SSHPacket) -> int:
+    """Decode a time in SFTPv4 and later, where it is a signed value"""
+
+    return int.from_bytes(packet.get_bytes(8), 'big', signed=True)
+
+
 class SFTPAttrs(Record):
     """SFTP file attributes
 
@@ -1803,7 +1821,8 @@ class SFTPAttrs(Record):
         if sftp_version == 3:
             if self.atime is not None and self.mtime is not None:
                 flags |= FILEXFER_ATTR_ACMODTIME
-                attrs.append(UInt32(int(self.atime)) + UInt32(int(self.mtime)))
+                attrs.append(_encode_time32(self.atime) +
+                             _encode_time32(self.mtime))
         else:
             subsecond = (self.atime_ns is not None or
                          self.crtime_ns is not None or
@@ -1815,28 +1834,28 @@ class SFTPAttrs(Record):
 
             if self.atime is not None:
                 flags |= FILEXFER_ATTR_ACCESSTIME
-                attrs.append(UInt64(int(self.atime)))
+                attrs.append(_encode_time64(self.atime))
 
                 if subsecond:
                     attrs.append(UInt32(self.atime_ns or 0))
 
             if self.crtime is not None:
                 flags |= FILEXFER_ATTR_CREATETIME
-                attrs.append(UInt64(int(self.crtime)))
+                attrs.append(_encode_time64(self.crtime))
 
                 if subsecond:
                     attrs.append(UInt32(self.crtime_ns or 0))
 
             if self.mtime is not None:
                 flags |= FILEXFER_ATTR_MODIFYTIME
-                attrs.append(UInt64(int(self.mtime)))
+                attrs.append(_encode_time64(self.mtime))
 
                 if subsecond:
                     attrs.append(UInt32(self.mtime_ns or 0))
 
             if sftp_version >= 6 and self.ctime is not None:
                 flags |= FILEXFER_ATTR_CTIME
-                attrs.append(UInt64(int(self.ctime)))
+                attrs.append(_encode_time64(self.ctime))
 
                 if subsecond:
                     attrs.append(UInt32(self.ctime_ns or 0))
@@ -1943,25 +1962,25 @@ class SFTPAttrs(Record):
                 attrs.mtime = packet.get_uint32()
         else:
             if flags & FILEXFER_ATTR_ACCESSTIME:
-                attrs.atime = packet.get_uint64()
+                attrs.atime = _decode_time64(packet)
 
                 if flags & FILEXFER_ATTR_SUBSECOND_TIMES:
                     attrs.atime_ns = packet.get_uint32()
 
             if flags & FILEXFER_ATTR_CREATETIME:
-                attrs.crtime = packet.get_uint64()
+                attrs.crtime = _decode_time64(packet)
 
                 if flags & FILEXFER_ATTR_SUBSECOND_TIMES:
                     attrs.crtime_ns = packet.get_uint32()
 
             if flags & FILEXFER_ATTR_MODIFYTIME:
-                attrs.mtime = packet.get_uint64()
+                attrs.mtime = _decode_time64(packet)
 
                 if flags & FILEXFER_ATTR_SUBSECOND_TIMES:
                     attrs.mtime_ns = packet.get_uint32()
 
             if flags & FILEXFER_ATTR_CTIME:
-                attrs.ctime = packet.get_uint64()
+                attrs.ctime = _decode_time64(packet)
 
                 if flags & FILEXFER_ATTR_SUBSECOND_TIMES:
                     attrs.ctime_ns = packet.get_uint32()
